@@ -65,6 +65,23 @@ class Fn:
         self._dom = None
         self._pdom = None
         self._parents = None
+        self.fx = None
+        self._env = None            # vid -> text while an inlined helper predicate is rendered in its caller's terms
+
+    def render_in(self, n, env, resolve=False):
+        """render n with the parameters in env (vid -> caller-side text) substituted"""
+        old, self._env = self._env, env
+        try:
+            return self.render(n, 0, resolve)
+        finally:
+            self._env = old
+
+    def single_return_expr(self):
+        """the expression E when the whole body is `return E;` (a pure helper predicate), else None"""
+        roots = [e for _, e in self.elements() if self.is_root(e['i'])]
+        if len(roots) != 1 or roots[0]['k'] != 'ReturnStmt' or not roots[0].get('c'):
+            return None
+        return roots[0]['c'][0]
 
     # -- basic graph ---------------------------------------------------------------
     def succs(self, b):
@@ -215,9 +232,13 @@ class Fn:
                  'CXXReinterpretCastExpr', 'CXXConstCastExpr'):
             return '(%s)(%s)' % (n.get('t'), r(c[0]) if c else '')
         if k == 'DeclRefExpr':
+            if self._env is not None and n.get('vid') in self._env:
+                return self._env[n['vid']]
             return n['d'].split('::')[-1] if n.get('vid') is not None else n['d']
         if k == 'MemberExpr':
             base = r(c[0]) if c else 'this'
+            if not n.get('arrow') and base.startswith('*') and base[1:].replace('_', 'a').isalnum():
+                return '%s->%s' % (base[1:], n['d'].split('::')[-1])          # (*p).x is p->x
             return '%s%s%s' % (base, '->' if n.get('arrow') else '.', n['d'].split('::')[-1])
         if k == 'CXXThisExpr':
             return 'this'
@@ -344,6 +365,7 @@ class Facts:
     def fn(self, key):
         if key not in self._fn:
             self._fn[key] = Fn(self.raw['functions'][key])
+            self._fn[key].fx = self
         return self._fn[key]
 
     def fns_named(self, q):
